@@ -55,7 +55,7 @@ let () =
        print_endline (String.concat " " (List.init 256 f))
      | ["E"; _; v], Some l ->
        let v = int_of_string v in
-       if v > 127 then print_endline "!" else
+       if v > 255 then print_endline "!" else
        (match ext_of_token l (n_of_int v) with
         | NoTable -> print_endline "notable" | Unknown -> print_endline "?" | Found r -> print_endline (hx r.e_name))
      | ["t"; _; cur; name], Some l ->
